@@ -256,14 +256,16 @@ pub fn is_valid_identifier(name: &str) -> bool {
 }
 
 fn name_needs_quoting(name: &str) -> bool {
-    let chars = name.chars();
-    // it contains any of these characters: ()'$,;-+{} or space
-    for (i, char) in chars.enumerate() {
-        if [' ', '(', ')', '\'', '$', ',', ';', '-', '+', '{', '}'].contains(&char) {
-            return true;
-        }
-        // if it starts with a number
-        if i == 0 && char.is_ascii_digit() {
+    // An unquoted sheet name is read back by the lexer as an identifier followed by '!':
+    // it has to start with a letter or an underscore and can only contain alphanumeric
+    // characters, '_' or '.'. Anything else, like ()'$,;-+{}&#=<>%^@!"~| or a space, and
+    // names that start with a number, need quotes.
+    for (i, char) in name.chars().enumerate() {
+        if i == 0 {
+            if !(char.is_alphabetic() || char == '_') {
+                return true;
+            }
+        } else if !(char.is_alphanumeric() || char == '_' || char == '.') {
             return true;
         }
     }
